@@ -532,12 +532,20 @@ class ClockScheduler():
     def reset(self):
         self.queue.clear()
 
+    def retime(self, clock):
+        # Tasks are due at a beat of their clock: when the clock's tempo
+        # map changes their time in seconds follows it (as it does in rt).
+        for _, clock_task in list(self.queue):
+            if clock_task.clock is clock:
+                self.queue.add(clock.beats2secs(clock_task.beats), clock_task)
+
 
 class ClockTask():
     def __init__(self, beats, clock, task, scheduler):
         self.clock = clock
         self.task = task
         self.scheduler = scheduler
+        self.beats = beats
         scheduler.add(clock.beats2secs(beats), self)
 
     def _wakeup(self, time):
@@ -546,7 +554,8 @@ class ClockTask():
             beats = self.clock.secs2beats(time)
             delta = self.task.__awake__(self.clock)
             if isinstance(delta, (int, float)) and not isinstance(delta, bool):
-                self.scheduler.add(self.clock.beats2secs(beats + delta), self)
+                self.beats = beats + delta
+                self.scheduler.add(self.clock.beats2secs(self.beats), self)
         except stm.StopStream:
             pass
         except Exception:
@@ -951,6 +960,7 @@ class TempoClock(Clock, metaclass=MetaTempoClock):
         # en tempo_
         mdl.NotificationCenter.notify(self, 'tempo')
         if self.mode == _libsc3.main.NRT_MODE:
+            _libsc3.main._clock_scheduler.retime(self)
             return
         else:
             with self._sched_cond:
@@ -980,6 +990,7 @@ class TempoClock(Clock, metaclass=MetaTempoClock):
         # etempo_
         mdl.NotificationCenter.notify(self, 'tempo')
         if self.mode == _libsc3.main.NRT_MODE:
+            _libsc3.main._clock_scheduler.retime(self)
             return
         else:
             with self._sched_cond:
@@ -1038,6 +1049,7 @@ class TempoClock(Clock, metaclass=MetaTempoClock):
         self._base_beats = value
         self._beat_dur = 1.0 / self._tempo
         if self.mode == _libsc3.main.NRT_MODE:
+            _libsc3.main._clock_scheduler.retime(self)
             return
         else:
             with self._sched_cond:
